@@ -23,6 +23,7 @@ type vSessWorld struct {
 	w        *vWorld
 	vip      *vFakeVIP
 	okta     *vFakeOkta
+	gate     *vGate
 	slots    map[string]string // slot -> cookie value held by that browser
 	tokens   map[string]*vU2FToken
 	secrets  map[string]string
@@ -88,6 +89,22 @@ func (g *vSessWorld) cred(q *vReq, args map[string]interface{}) (actor string) {
 	cert, slot := vStr(c, "cert"), vStr(c, "slot")
 	if q.Cookies == nil {
 		q.Cookies = map[string]string{}
+	}
+	if _, has := g.slots[slot]; has && vStr(c, "decoy") != "" && vStr(c, "decoy") != "none" && vStr(c, "decoy") != slot {
+		d := vStr(c, "decoy")
+		// a second session cookie of the same name, sent FIRST (a browser never does that, an attacker's client can)
+		if v, ok := g.slots[d]; ok {
+			if q.Headers == nil {
+				q.Headers = map[string]string{}
+			} else {
+				h := map[string]string{}
+				for k, x := range q.Headers {
+					h[k] = x
+				}
+				q.Headers = h
+			}
+			q.Headers["Cookie"] = authCookieName + "=" + v
+		}
 	}
 	if slot != "none" {
 		if v, ok := g.slots[slot]; ok {
@@ -296,6 +313,14 @@ func (g *vSessWorld) step(name string, args map[string]interface{}) (vResp, [][]
 			truth = append(truth, []string{u, "okta"})
 		}
 		g.okta.mu.Unlock()
+	case "StoreReadOnly":
+		// the profile store keeps answering reads and refuses every write (read-only replica, full disk)
+		if g.gate == nil {
+			g.gate, _ = w.regate()
+		}
+		g.gate.mu.Lock()
+		g.gate.readOnly = vBool(args, "on")
+		g.gate.mu.Unlock()
 	case "Expire":
 		past := time.Now().Add(-time.Hour)
 		k := vStr(args, "key")
